@@ -3,7 +3,7 @@ EXTENDS PyFlow, Json
 
 CONSTANTS ExportMin      \* bodies shorter than this are not exported
 
-MCKindsAll  == {"asg", "aug", "prt", "ret", "if", "else", "for", "whl", "brk", "cnt"}
+MCKindsAll  == {"asg", "aug", "prt", "ret", "rtn", "if", "else", "for", "whl", "brk", "cnt"}
 MCKindsCore == {"asg", "aug", "prt", "if", "else", "for"}
 MCInitAll   == {{}, {"a"}, {"a", "b"}}
 MCInitOne   == {{"a"}}
@@ -40,7 +40,10 @@ Behaviour ==
   [init |-> init, lines |-> body,
    runs |-> [k \in 1..4 |-> RunRec(ValSeq[k])],
    regions |-> IF StmtOn THEN UNION {{RegionRec(i, j) : j \in i..Len(body)} : i \in 1..Len(body)} ELSE {},
-   exprs |-> IF ExprOn THEN ExprRecs ELSE {}]
+   exprs |-> IF ExprOn THEN ExprRecs ELSE {},
+   \* which sibling kinds may be rewritten when statements of a host of kind hk are extracted with similar
+   siblings |-> {[host |-> hk, sib |-> sk, rewritable |-> ReceiverIsName(sk, Receiver(hk))] :
+                    hk \in ClassKinds, sk \in ClassKinds}]
 
 Export == (phase = "build" /\ Complete(body) /\ Len(body) >= ExportMin)
              => PrintT(<<"BEH", ToJson(Behaviour)>>)
